@@ -127,7 +127,10 @@ def arr_map(E, fn, arrs, kind, node=None):
 
     nan_srcs = [x for x in frozen if isinstance(x, NdArr) and x.cell.nan is not None]
     nanfn = (lambda *i: z3.Or(*[x.isnan(*i) for x in nan_srcs])) if nan_srcs else None
-    return NdArr.from_fn("t", ref.shape, kind, f, nanfn)
+    out = NdArr.from_fn("t", ref.shape, kind, f, nanfn)
+    if any(isinstance(a, NdArr) and getattr(a.cell, "masked", False) for a in arrs):
+        out.cell.masked = True         # numpy.ma: the result of an operation on masked arrays is masked where an operand is
+    return out
 
 
 def arr_binop(R, E, op, a, b, node):
@@ -676,15 +679,24 @@ def install(R):
 
     @reg("numpy.ma.masked_array")
     def _masked(E, data, mask=None, **kw):
-        # modelled only for an all-false mask (NaN-free data): the masked array is the data
-        if mask is not None:
-            if not isinstance(mask, NdArr):
-                raise Unsupported("mask")
-            idx = [z3.Int(fresh_name("mi")) for _ in mask.shape]
-            inb = z3.And(*[z3.And(i >= 0, i < z(s)) for i, s in zip(idx, mask.shape)])
-            if E.feasible(z3.And(inb, mask.get(*idx))):
-                raise Unsupported("masked_array with a mask that may be true (NaN data)")
-        return data
+        """numpy.ma.masked_array(data, mask): an all-false mask gives the data; otherwise the masked array is the data with the mask as
+        per-cell flag (cell.masked): operations propagate the flag (arr_map), numpy.sum skips flagged cells (ghost.sum1)"""
+        if mask is None:
+            return data
+        if not isinstance(mask, NdArr) or not isinstance(data, NdArr):
+            raise Unsupported("masked_array(%r, %r)" % (data, mask))
+        idx = [z3.Int(fresh_name("mi")) for _ in mask.shape]
+        inb = z3.And(*[z3.And(i >= 0, i < z(s)) for i, s in zip(idx, mask.shape)])
+        if not E.feasible(z3.And(inb, mask.get(*idx))):
+            return data
+        shapes_equal(E, data.shape, mask.shape, None, "mask-shape")
+        fd, fm = data.snapshot(), mask.snapshot()
+        if fd.cell.nan is not None:
+            # model limit stated as an obligation: a NaN of the data that the mask does not cover would flow into the sums as NaN
+            E.safety("masked-array-covers-every-nan", z3.ForAll(idx, z3.Implies(z3.And(inb, fd.isnan(*idx)), fm.get(*idx))), None, "ValueError")
+        out = NdArr.from_fn("masked", data.shape, data.kind, lambda *i: fd.get(*i), lambda *i: zbool(fm.get(*i)))
+        out.cell.masked = True
+        return out
 
     @reg("numpy.hstack")
     def _hstack(E, parts, **kw):
@@ -706,10 +718,31 @@ def install(R):
                 for p, o in reversed(list(zip(fs[:-1], offs[:-1]))):
                     val = z3.If(c < z(o) + z(p.shape[1]), p.get(r, c - z(o)), val)
                 return val
-            res_ = NdArr.from_fn("hstack", (rows, tot), parts[0].kind, f)
+            # numpy promotes: the result is real as soon as one part is
+            kinds = {p.kind for p in parts}
+            hk = parts[0].kind if len(kinds) == 1 else ("real" if "real" in kinds else "int")
+
+            def f_(r, c, f=f):
+                v = f(r, c)
+                return cast(v, hk)
+            res_ = NdArr.from_fn("hstack", (rows, tot), hk, f_ if len(kinds) > 1 else f)
             E.trace.append(dict(op="hstack", parts=parts, result=res_))
             return res_
         raise Unsupported("hstack of 1-d arrays")
+
+    @reg("numpy.cumsum")
+    def _cumsum(E, v, **kw):
+        """running sums of a list of known length (numbers, possibly symbolic)"""
+        if isinstance(v, (list, tuple)) and all(is_num_like(x) for x in v):
+            k = "real" if any(is_real_like(x) for x in v) else "int"
+            arr = NdArr.fresh("cumsum", (len(v),), k)
+            tot = None
+            for i, x in enumerate(v):
+                tot = cast(x, k) if tot is None else z3.simplify(tot + cast(x, k))
+                arr.set((i,), tot)
+            arr.cell.writes = 0
+            return arr
+        raise Unsupported("cumsum of %r" % (v,))
 
     @reg("numpy.sort")
     def _sort(E, a, **kw):
